@@ -33,7 +33,7 @@ Overlap(a, b) == a.hi = b.hi /\ a.lo < b.lo + b.len /\ b.lo < a.lo + a.len
 
 Acquire(t, s, fresh, what) ==
   IF st.holds[t] # -1
-  THEN Result([st EXCEPT !.guard = IF what = "init" THEN @ \cup {t} ELSE @],
+  THEN Result([st EXCEPT !.guard = IF what = "init" THEN @ \cup {t} ELSE @, !.known = @ \cup {s}],
               Chk(st.holds[t] = s, "C14", "StackStableWhileHeld", <<what, t, st.holds[t], s>>))
   ELSE Result([st EXCEPT !.holds[t] = s, !.free = @ \ {s}, !.known = @ \cup {s},
                          !.made = @ \cup {t}, !.guard = IF what = "init" THEN @ \cup {t} ELSE @,
